@@ -58,7 +58,7 @@ Open Scope Z_scope.
 BASE_CODE = {"A": 0, "C": 1, "G": 2, "T": 3, "N": 4}
 SIG_PRE = "haplotagphase:prephased-altered"          # any alteration of a pre-phased call that is not one of the four below
 # residual classes (input class AND observed alteration), recorded as known findings:
-SIG_HOM = "haplotagphase:prephased-homozygous-unphased"             # a|a:PS -> a/a
+SIG_HOM = "haplotagphase:prephased-homozygous-unphased"             # a|a:PS -> a/a:.
 SIG_SKIP = "haplotagphase:prephased-on-skipped-record-unphased"     # no ALT / duplicate position / multi-ALT under --no-mav
 SIG_NOKEY = "haplotagphase:prephased-no-ps-key-gains-ps0"           # het a|b with FORMAT GT only -> a|b:0
 SIG_PSDOT = "haplotagphase:prephased-ps-missing-rewritten"          # het a|b:. rewritten from the votes
@@ -644,12 +644,12 @@ def classify_alteration(skip, pskey, ci, co, voted):
     called = None not in gt_i
     unphased_same = (not ph_o) and called and gt_o == sorted(gt_i)
     if skip:
-        # only _remove_existing_phasing acts on the record: `|` -> `/`, alleles sorted, PS untouched
-        return SIG_SKIP if unphased_same and ps_o == ps_i else SIG_PRE
+        # only _remove_existing_phasing acts on the record: `|` -> `/`, alleles sorted, PS value cleared
+        return SIG_SKIP if unphased_same and ps_o is None else SIG_PRE
     cls = call_class(skip, pskey, ci)
     if cls == 2 and len(gt_i) == 2 and called and gt_i[0] == gt_i[1]:
-        # a|a:PS -> a/a (PS kept, or cleared when another sample of the record is phased)
-        return SIG_HOM if unphased_same and ps_o in (ps_i, None) else SIG_PRE
+        # a|a:PS -> a/a:. (_remove_existing_phasing clears the PS value)
+        return SIG_HOM if unphased_same and ps_o is None else SIG_PRE
     if cls == 1 and not pskey:
         return SIG_NOKEY if ph_o and gt_o == gt_i and ps_o == 0 else SIG_PRE
     if cls == 1 and pskey and ps_i is None:
